@@ -114,7 +114,8 @@ class WaitWalker(pathwalk.Walker):
 
 
 def run(ctx):
-    fbs = ctx.facts(['K17', 'K20'], kinds=('probe', 'lib'), only=r'p_async\.cpp$|p_coro\.cpp$|src/algo|src/util|src/async', tests=r'/test/')
+    fbs = ctx.facts(['K17', 'K20'], kinds=('probe', 'lib'), only=r'p_async\.cpp$|p_coro\.cpp$|src/algo|src/util|src/async', tests=r'/test/',
+                    quick_tests=r'unit/algo/wait\.cpp|unit/async/get\.cpp')
     rr = ctx.rule('R-WAITRETURN', 'WaitRange returns only when no producer can still touch the stack event: after the '
                   'reset pass either every registration was withdrawn / the counter reached zero, or the untimed wait '
                   'has returned', minimum=6)
